@@ -101,10 +101,10 @@ IsPromoLetterCh(c) == c \in {78, 66, 82, 81}
 PromoKindOfLetterCh(c) == CASE c = 78 -> KPromoN [] c = 66 -> KPromoB [] c = 82 -> KPromoR [] c = 81 -> KPromoQ
 IsCapCh(c) == c = ChX \/ c = ChColon
 
-\* strip one check suffix: "#", "++" or "+"
+\* strip one check suffix: "#", "++" or "+" - and, as the code does, a trailing "x" (an old-style mate mark)
 SanStrip(t) ==
   LET n == Len(t) IN
-  IF n >= 1 /\ t[n] = ChHash THEN SubSeq(t, 1, n - 1)
+  IF n >= 1 /\ t[n] \in {ChHash, ChX} THEN SubSeq(t, 1, n - 1)
   ELSE IF n >= 2 /\ t[n] = ChPlus /\ t[n - 1] = ChPlus THEN SubSeq(t, 1, n - 2)
   ELSE IF n >= 1 /\ t[n] = ChPlus THEN SubSeq(t, 1, n - 1)
   ELSE t
